@@ -1,5 +1,368 @@
 package c09
 
-import "verif/engine/qx"
+import (
+	"context"
+	"errors"
+	"fmt"
+	"io"
+	"sort"
+	"strings"
+	"sync"
+	"time"
 
-func extraSuites(tier string) []qx.SuiteItem { return nil }
+	kafka "github.com/segmentio/kafka-go"
+	"github.com/segmentio/kafka-go/protocol"
+	"github.com/segmentio/kafka-go/protocol/leavegroup"
+
+	"verif/engine/fk"
+	"verif/engine/qx"
+	"verif/engine/refwire"
+	"verif/harness/clientops"
+)
+
+type rscn struct {
+	name   string
+	group  bool
+	faults map[protocol.ApiKey][]string
+	down   bool // a broker can be taken down (dials refused) at any point
+	bound  int
+}
+
+func (sc *rscn) scenario() *qx.Scenario {
+	cfg := qx.Config{Horizon: 120 * time.Second, Quantum: 7 * time.Second, Grace: 15 * time.Second, MaxSteps: 600}
+	scn := &qx.Scenario{Name: sc.name, Cfg: cfg}
+	scn.OnLeak = func(o *qx.Outcome) {
+		if o.Violation == "" {
+			o.Violation = "goroutines started by the Reader were still alive 15 s (virtual) after Close returned"
+			o.Sig = "reader-leak"
+		}
+	}
+	scn.Body = func(x *qx.Exec) *qx.Outcome {
+		c := fk.New(1)
+		c.AddTopic("t", 1, nil)
+		b := &refwire.Batch{Format: 2, Base: 0, Last: 2}
+		for o := int64(0); o < 3; o++ {
+			b.Recs = append(b.Recs, refwire.Rec{Offset: o, TS: 1, Value: []byte("v")})
+		}
+		c.Part("t", 0).Append(b)
+		c.OnEvent = x.Notify
+		rc := kafka.ReaderConfig{Brokers: []string{"b1:9092"}, Topic: "t", Dialer: &kafka.Dialer{DialFunc: c.Dial, Timeout: 3 * time.Second},
+			MinBytes: 1, MaxBytes: 1 << 20, MaxWait: 200 * time.Millisecond, QueueCapacity: 1, ReadBackoffMin: 50 * time.Millisecond, ReadBackoffMax: 200 * time.Millisecond,
+			MaxAttempts: 2, ReadBatchTimeout: 4 * time.Second, HeartbeatInterval: time.Second, SessionTimeout: 6 * time.Second, RebalanceTimeout: 6 * time.Second, JoinGroupBackoff: time.Second, RetentionTime: time.Hour, ReadLagInterval: 8 * time.Second}
+		if sc.group {
+			rc.GroupID = "g"
+		}
+		r := kafka.NewReader(rc)
+		var mu sync.Mutex
+		type call struct {
+			kind             string
+			err              string
+			startAt, endAt   time.Duration
+			cancelAt         time.Duration
+			cancelled, ended bool
+		}
+		var calls []*call
+		var cancels []context.CancelFunc
+		var closeStart, closeEnd time.Duration
+		closeReturned, closeCalled := false, false
+		closeJournalMark := -1
+		closeGate := make(chan struct{}, 1)
+		x.Go("app", func() {
+			for i := 0; i < 5; i++ {
+				ctx, cancel := context.WithCancel(context.Background())
+				cl := &call{kind: "fetch", startAt: x.Now()}
+				mu.Lock()
+				calls = append(calls, cl)
+				cancels = append(cancels, cancel)
+				mu.Unlock()
+				x.Notify()
+				m, err := r.FetchMessage(ctx)
+				mu.Lock()
+				cl.ended, cl.endAt = true, x.Now()
+				if err != nil {
+					cl.err = errName(err)
+				}
+				cancels[len(cancels)-1] = nil
+				mu.Unlock()
+				cancel()
+				if err != nil {
+					if errors.Is(err, io.EOF) {
+						return
+					}
+					continue
+				}
+				if sc.group {
+					cctx, ccancel := context.WithCancel(context.Background())
+					cc := &call{kind: "commit", startAt: x.Now()}
+					mu.Lock()
+					calls = append(calls, cc)
+					cancels = append(cancels, ccancel)
+					mu.Unlock()
+					x.Notify()
+					cerr := r.CommitMessages(cctx, m)
+					mu.Lock()
+					cc.ended, cc.endAt = true, x.Now()
+					if cerr != nil {
+						cc.err = errName(cerr)
+					}
+					cancels[len(cancels)-1] = nil
+					mu.Unlock()
+					ccancel()
+				}
+			}
+		})
+		x.Go("closer", func() {
+			<-closeGate
+			mu.Lock()
+			closeStart = x.Now()
+			mu.Unlock()
+			r.Close()
+			c.Lock()
+			mark := len(c.Journal)
+			c.Unlock()
+			mu.Lock()
+			closeEnd, closeReturned, closeJournalMark = x.Now(), true, mark
+			mu.Unlock()
+			// use after close
+			_, err := r.FetchMessage(context.Background())
+			mu.Lock()
+			calls = append(calls, &call{kind: "fetch-after-close", err: errName(err), ended: true})
+			mu.Unlock()
+		})
+		downDone := false
+		x.SetEnv(func() []qx.Action {
+			var acts []qx.Action
+			ps := c.Pending()
+			for _, e := range ps {
+				e := e
+				acts = append(acts, qx.Action{Label: fmt.Sprintf("ans#%d(api%d):ok", e.Seq, e.Key), Do: func() { c.Answer(e, "") }})
+			}
+			mu.Lock()
+			if !closeCalled {
+				acts = append(acts, qx.Action{Label: "close", Do: func() { mu.Lock(); closeCalled = true; mu.Unlock(); closeGate <- struct{}{} }})
+			}
+			for i, cf := range cancels {
+				if cf != nil && !calls[i].cancelled {
+					i, cf := i, cf
+					acts = append(acts, qx.Action{Label: fmt.Sprintf("cancel-%s#%d", calls[i].kind, i), Do: func() {
+						mu.Lock()
+						calls[i].cancelled, calls[i].cancelAt = true, x.Now()
+						mu.Unlock()
+						cf()
+					}})
+				}
+			}
+			mu.Unlock()
+			if sc.down && !downDone {
+				acts = append(acts, qx.Action{Label: "broker-goes-down", Do: func() {
+					downDone = true
+					c.Lock()
+					c.Brokers[0].Down = true
+					c.Unlock()
+					for _, id := range c.OpenConns() {
+						c.CutConn(id)
+					}
+				}})
+			}
+			for _, e := range ps {
+				e := e
+				for _, f := range sc.faults[e.Key] {
+					f := f
+					acts = append(acts, qx.Action{Label: fmt.Sprintf("ans#%d(api%d):%s", e.Seq, e.Key, f), Do: func() { c.Answer(e, f) }})
+				}
+			}
+			return acts
+		})
+		st := x.Run()
+		if !closeReturned {
+			go r.Close()
+		}
+		mu.Lock()
+		cr := closeReturned
+		mu.Unlock()
+		if cr && st == qx.StDone {
+			x.Release()
+			time.Sleep(12 * time.Second) // goroutines and connections may outlive Close by the network timeouts
+		}
+		mu.Lock()
+		defer mu.Unlock()
+		o := &qx.Outcome{}
+		viol := func(sig, msg string) {
+			if o.Violation == "" {
+				o.Violation, o.Sig = msg, sig
+			}
+		}
+		var kb strings.Builder
+		fmt.Fprintf(&kb, "%s;", st)
+		for _, cl := range calls {
+			fmt.Fprintf(&kb, "%s=%s ", cl.kind, cl.err)
+			if cl.kind == "fetch-after-close" && cl.err != "io.EOF" {
+				viol("fetch-after-close", fmt.Sprintf("FetchMessage after Close returned %q, want io.EOF", cl.err))
+			}
+			if cl.cancelled && cl.ended && cl.err == "ctx" && cl.endAt > cl.cancelAt {
+				viol("slow-cancel:"+cl.kind, fmt.Sprintf("%s cancelled at %v returned at %v", cl.kind, cl.cancelAt, cl.endAt))
+			}
+			if cl.cancelled && !cl.ended {
+				viol("cancel-ignored:"+cl.kind, fmt.Sprintf("%s did not return although its context was cancelled at %v", cl.kind, cl.cancelAt))
+			}
+		}
+		if st != qx.StDone {
+			what := "application call"
+			if closeCalled && !closeReturned {
+				what = "Reader.Close"
+			}
+			viol("hang:"+strings.ReplaceAll(what, " ", "-"), fmt.Sprintf("%s did not return within the virtual horizon (%s)", what, kb.String()))
+		}
+		c.Lock()
+		if closeReturned {
+			// nothing is sent after Close returned, the group was left, connections are closed
+			for _, e := range c.Journal[closeJournalMark:] {
+				if e.Key == protocol.ApiVersions {
+					continue // sent by a dial that was in flight; carries nothing of the Reader's
+				}
+				viol("request-after-close", fmt.Sprintf("request api=%d arrived at %v after Reader.Close had returned at %v", e.Key, e.At, closeEnd))
+			}
+			if sc.group {
+				member := ""
+				if g := c.Groups["g"]; g != nil {
+					for id := range g.Members {
+						member = id
+					}
+				}
+				left := false
+				fine := true
+				for _, e := range c.Journal {
+					if _, ok := e.Msg.(*leavegroup.Request); ok {
+						left = true
+					}
+					if e.Answer != "ok" || e.AnsweredAt-e.At >= 3*time.Second {
+						fine = false
+					}
+				}
+				if member != "" && !left && fine && !downDone {
+					viol("no-leave-on-close", fmt.Sprintf("Reader.Close returned but member %s never sent LeaveGroup", member))
+				}
+			}
+			var open []int
+			for i := range c.Conns {
+				if !c.ConnClosedLocked(i) {
+					open = append(open, i)
+				}
+			}
+			sort.Ints(open)
+			if len(open) > 0 {
+				viol("connection-left-open", fmt.Sprintf("connections %v were still open 12 s (virtual) after Reader.Close returned", open))
+			}
+			if closeEnd-closeStart > 20*time.Second {
+				viol("slow-close", fmt.Sprintf("Reader.Close took %v", closeEnd-closeStart))
+			}
+		}
+		c.Unlock()
+		o.Key = kb.String()
+		return o
+	}
+	return scn
+}
+
+func errName(err error) string {
+	switch {
+	case err == nil:
+		return ""
+	case errors.Is(err, io.EOF):
+		return "io.EOF"
+	case errors.Is(err, context.Canceled):
+		return "ctx"
+	case errors.Is(err, io.ErrClosedPipe):
+		return "closed-pipe"
+	}
+	s := err.Error()
+	if len(s) > 40 {
+		s = s[:40]
+	}
+	return s
+}
+
+// Transport round trips cancelled at any point
+func transportCancel(bound int) *qx.Scenario {
+	scn := &qx.Scenario{Name: "transport-cancel-roundtrip", Cfg: qx.Config{Horizon: 60 * time.Second, Quantum: 7 * time.Second, Grace: time.Second, MaxSteps: 300}}
+	scn.Body = func(x *qx.Exec) *qx.Outcome {
+		c := fk.New(2)
+		c.AddTopic("t", 2, func(p int) int { return p + 1 })
+		c.OnEvent = x.Notify
+		cl, tr := clientops.NewClient(c)
+		cl.Timeout = 0
+		var mu sync.Mutex
+		type res struct {
+			err      string
+			cancelAt time.Duration
+			endAt    time.Duration
+			ended    bool
+		}
+		rs := []*res{{}, {}}
+		cancels := []context.CancelFunc{nil, nil}
+		for i := 0; i < 2; i++ {
+			i := i
+			ctx, cancel := context.WithCancel(context.Background())
+			cancels[i] = cancel
+			x.Go(fmt.Sprintf("T%d", i), func() {
+				_, err := cl.ListOffsets(ctx, &kafka.ListOffsetsRequest{Topics: map[string][]kafka.OffsetRequest{"t": {kafka.LastOffsetOf(i)}}})
+				mu.Lock()
+				rs[i].ended, rs[i].endAt, rs[i].err = true, x.Now(), errName(err)
+				cancels[i] = nil
+				mu.Unlock()
+			})
+		}
+		x.SetEnv(func() []qx.Action {
+			var acts []qx.Action
+			for _, e := range c.Pending() {
+				e := e
+				acts = append(acts, qx.Action{Label: fmt.Sprintf("ans#%d(b%d,api%d):ok", e.Seq, e.Broker, e.Key), Do: func() { c.Answer(e, "") }})
+			}
+			mu.Lock()
+			for i, cf := range cancels {
+				if cf != nil && rs[i].cancelAt == 0 {
+					i, cf := i, cf
+					acts = append(acts, qx.Action{Label: fmt.Sprintf("cancel-T%d", i), Do: func() { mu.Lock(); rs[i].cancelAt = x.Now() + 1; mu.Unlock(); cf() }})
+				}
+			}
+			mu.Unlock()
+			return acts
+		})
+		st := x.Run()
+		tr.CloseIdleConnections()
+		mu.Lock()
+		defer mu.Unlock()
+		o := &qx.Outcome{Key: string(st)}
+		for i, r := range rs {
+			o.Key += fmt.Sprintf(" T%d=%s", i, r.err)
+			if r.cancelAt > 0 && (!r.ended || r.endAt > r.cancelAt) && o.Violation == "" && r.err != "" {
+				o.Violation = fmt.Sprintf("round trip T%d cancelled at %v returned at %v (ended=%v)", i, r.cancelAt-1, r.endAt, r.ended)
+				o.Sig = "transport-slow-cancel"
+			}
+			if r.cancelAt > 0 && r.ended && r.err != "ctx" && r.err != "" && o.Violation == "" {
+				o.Violation = fmt.Sprintf("cancelled round trip T%d returned %q, not the context's error", i, r.err)
+				o.Sig = "transport-cancel-error"
+			}
+		}
+		if st != qx.StDone && o.Violation == "" {
+			o.Violation, o.Sig = "round trips did not return within the horizon", "transport-hang"
+		}
+		return o
+	}
+	return scn
+}
+
+func extraSuites(tier string) []qx.SuiteItem {
+	b := 2
+	if tier == "thorough" {
+		b = 3
+	}
+	ff := map[protocol.ApiKey][]string{protocol.Fetch: {"stall", "drop"}, protocol.Metadata: {"stall"}, protocol.ListOffsets: {"drop"}}
+	gf := map[protocol.ApiKey][]string{protocol.Fetch: {"stall"}, protocol.Heartbeat: {"err:27", "stall"}, protocol.OffsetCommit: {"stall", "err:27"}, protocol.JoinGroup: {"stall"}, protocol.LeaveGroup: {"stall"}}
+	return []qx.SuiteItem{
+		{Scn: (&rscn{name: "reader-close-and-cancel", faults: ff}).scenario(), Bound: b},
+		{Scn: (&rscn{name: "reader-broker-down", faults: map[protocol.ApiKey][]string{protocol.Fetch: {"drop"}}, down: true}).scenario(), Bound: b},
+		{Scn: (&rscn{name: "group-reader-close-and-cancel", group: true, faults: gf}).scenario(), Bound: b},
+		{Scn: transportCancel(b + 1), Bound: b + 1},
+	}
+}
